@@ -177,8 +177,8 @@ def run_node(h, cfg):
         if entry in NODE_PURE:
             a1, a2 = [G, tau, gamma, [1]], [G2, tau, gamma, [pi[1]]]
             if sir:
-                kw['initial_recovereds'] = [0]
-                kw2['initial_recovereds'] = [pi[0]]
+                kw['initial_recovereds'] = [n - 1]
+                kw2['initial_recovereds'] = [pi[n - 1]]
         else:
             rho = eng.real('rho', lo=0, hi=1, lo_strict=True, hi_strict=True)
             kw['rho'] = kw2['rho'] = rho
@@ -386,7 +386,7 @@ def replay_concrete(cfg, kind, values, decisions):
             a1.append([1])
             a2.append([pi[1]])
             if sir:
-                kw['initial_recovereds'], kw2['initial_recovereds'] = [0], [pi[0]]
+                kw['initial_recovereds'], kw2['initial_recovereds'] = [G.order() - 1], [pi[G.order() - 1]]
         else:
             kw['rho'] = kw2['rho'] = rho
     try:
